@@ -67,13 +67,16 @@ theorem latestGet_insert_other (r : Bytes × Bytes × Nat × Bytes) (l : List (B
         have hxn : (x.1 == ns && x.2.1 == a) = false := by rw [hx.1, hx.2]; exact hr
         simp [h1, h2, latestGet, List.find?_cons, hr, hxn]
 
-/-- the head of `(ns, a)` is the greatest timestamp among the records of that author in that
-document, and there is no head exactly when there is no such record -/
-def HeadOk (t : T) : Prop :=
-  ∀ ns a, match latestGet t.latest ns a with
-    | some (m, _) => (∃ e ∈ t.records, e.ns = ns ∧ e.author = a ∧ e.ts = m) ∧
-                     (∀ e ∈ t.records, e.ns = ns → e.author = a → e.ts ≤ m)
-    | none => ∀ e ∈ t.records, ¬ (e.ns = ns ∧ e.author = a)
+/-- the head invariant for an explicit pair (head rows, records): the head of `(ns, a)` is the
+greatest timestamp among the records of that author in that document, and there is no head
+exactly when there is no such record -/
+def HeadOkL (heads : List (Bytes × Bytes × Nat × Bytes)) (recs : List Entry) : Prop :=
+  ∀ ns a, match latestGet heads ns a with
+    | some (m, _) => (∃ e ∈ recs, e.ns = ns ∧ e.author = a ∧ e.ts = m) ∧
+                     (∀ e ∈ recs, e.ns = ns → e.author = a → e.ts ≤ m)
+    | none => ∀ e ∈ recs, ¬ (e.ns = ns ∧ e.author = a)
+
+def HeadOk (t : T) : Prop := HeadOkL t.latest t.records
 
 theorem dom_ts_le {e c : Entry} (h : dom e c) : c.ts ≤ e.ts := by
   rcases h.2 with h | ⟨h, _⟩ <;> omega
